@@ -30,16 +30,42 @@ pub struct LdapResult { pub rc: u32, pub matched: String, pub text: String, pub 
 pub struct ResultEntry(pub StructureTag, pub Vec<Control>);
 pub struct SearchResult(pub Vec<ResultEntry>, pub LdapResult);
 
-// src/search.rs enums (discriminants are the RFC 4511 4.5.1 ENUMERATED values); trusted shapes
-#[derive(Clone, Copy)]
-pub enum Scope { Base = 0, OneLevel = 1, Subtree = 2 }
-#[derive(Clone, Copy)]
-pub enum DerefAliases { Never = 0, Searching = 1, Finding = 2, Always = 3 }
-pub struct SearchOptions { pub deref: DerefAliases, pub typesonly: bool, pub timelimit: i32, pub sizelimit: i32 }
+// src/search.rs: the repo's own definitions, lifted (the discriminants are the RFC 4511 4.5.1 ENUMERATED values)
+//@item file=src/search.rs kind=enum name=Scope derive="Clone, Copy"
+//@item file=src/search.rs kind=enum name=DerefAliases derive="Clone, Copy"
+//@item file=src/search.rs kind=struct name=SearchOptions
 impl SearchOptions {
-    // SearchOptions::new() == Default: never deref, typesonly false, no limits (derive(Default); trusted)
+    // SearchOptions::new() == Default (derive(Default) on the struct and #[default] Never): trusted
     #[verifier::external_body]
     pub fn new() -> (r: SearchOptions) ensures r.deref is Never, r.typesonly == false, r.timelimit == 0, r.sizelimit == 0 { unimplemented!() }
+//@lift name=SearchOptions::deref file=src/search.rs impl="impl\s+SearchOptions\s*\{" fn=deref
+//@ sub "fn deref(mut self, d: DerefAliases) -> Self" => "fn deref(self, d: DerefAliases) -> Self"
+//@ sub "self.deref = d;\n        self" => "let mut verif_self = self; verif_self.deref = d;\n        verif_self"
+//@ ret r
+//@ spec
+    ensures r.deref == d && r.typesonly == self.typesonly && r.timelimit == self.timelimit && r.sizelimit == self.sizelimit, //# C02.search_option_deref_sets_exactly_that_field
+//@end
+//@lift name=SearchOptions::typesonly file=src/search.rs impl="impl\s+SearchOptions\s*\{" fn=typesonly
+//@ sub "fn typesonly(mut self, typesonly: bool) -> Self" => "fn typesonly(self, typesonly: bool) -> Self"
+//@ sub "self.typesonly = typesonly;\n        self" => "let mut verif_self = self; verif_self.typesonly = typesonly;\n        verif_self"
+//@ ret r
+//@ spec
+    ensures r.typesonly == typesonly && r.deref == self.deref && r.timelimit == self.timelimit && r.sizelimit == self.sizelimit, //# C02.search_option_typesonly_sets_exactly_that_field
+//@end
+//@lift name=SearchOptions::timelimit file=src/search.rs impl="impl\s+SearchOptions\s*\{" fn=timelimit
+//@ sub "fn timelimit(mut self, timelimit: i32) -> Self" => "fn timelimit(self, timelimit: i32) -> Self"
+//@ sub "self.timelimit = timelimit;\n        self" => "let mut verif_self = self; verif_self.timelimit = timelimit;\n        verif_self"
+//@ ret r
+//@ spec
+    ensures r.timelimit == timelimit && r.deref == self.deref && r.typesonly == self.typesonly && r.sizelimit == self.sizelimit, //# C02.search_option_timelimit_sets_exactly_that_field
+//@end
+//@lift name=SearchOptions::sizelimit file=src/search.rs impl="impl\s+SearchOptions\s*\{" fn=sizelimit
+//@ sub "fn sizelimit(mut self, sizelimit: i32) -> Self" => "fn sizelimit(self, sizelimit: i32) -> Self"
+//@ sub "self.sizelimit = sizelimit;\n        self" => "let mut verif_self = self; verif_self.sizelimit = sizelimit;\n        verif_self"
+//@ ret r
+//@ spec
+    ensures r.sizelimit == sizelimit && r.deref == self.deref && r.typesonly == self.typesonly && r.timelimit == self.timelimit, //# C02.search_option_sizelimit_sets_exactly_that_field
+//@end
 }
 pub open spec fn scope_num(s: Scope) -> int { match s { Scope::Base => 0, Scope::OneLevel => 1, Scope::Subtree => 2 } }
 pub open spec fn deref_num(d: DerefAliases) -> int { match d { DerefAliases::Never => 0, DerefAliases::Searching => 1, DerefAliases::Finding => 2, DerefAliases::Always => 3 } }
